@@ -383,6 +383,57 @@ def run(tier, seed, replay):
                     rep.violation("%s:%s:%s" % (kind, kindname.split("_")[0] + ("/" + kindname.split("_")[1] if kindname.startswith("ec_") else ""),
                                                 "private" if r["priv"] else "public" if r["priv"] is False else "bin"),
                                   "key conversion problem: %s %s" % (kind, detail), dict(file=r["file"], detail=detail, jwk=r.get("jwk_public_view")))
+    # key files larger than the tools' read buffer: PEM keys preceded by > 8 KiB of text (openssl -text style), oct keys around and beyond 8192 bytes.
+    # key2jwk either refuses (non-zero exit; only tolerated beyond 8192 bytes) or emits the same key, never a different one
+    def bigfile(job):
+        kind, src, size = job
+        wd = os.path.join(rd, "big-%s-%s-%d" % (kind, os.path.basename(src or "oct"), size)); shutil.rmtree(wd, ignore_errors=True); os.makedirs(wd)
+        r = random.Random(seed * 31 + size)
+        if kind == "pem":
+            path = os.path.join(wd, "pre.pem")
+            lines = "".join("    %s\n" % ":".join("%02x" % r.randrange(256) for _ in range(15)) for _ in range(size // 50))
+            open(path, "w").write("Private-Key: (text dump in front of the PEM block)\nmodulus:\n" + lines + open(src).read())
+        else:
+            path = os.path.join(wd, "big.bin")
+            open(path, "wb").write(bytes(r.randrange(256) for _ in range(size)))
+        p = subprocess.run([T["key2jwk"], "-q", "-o", "-", path], capture_output=True, env=env, cwd=wd)
+        if p.returncode != 0:
+            return ("refused", kind, size, None) if (kind == "oct" and size > 8192) else ("problem", kind, size, "key2jwk exit %d: %s" % (p.returncode, p.stderr.decode("latin-1")[-200:]))
+        try:
+            txt = p.stdout.decode("latin-1"); d = json.loads(txt[txt.index("{"):])
+            jw = d["keys"][0] if isinstance(d.get("keys"), list) else d
+        except Exception as e:
+            return ("problem", kind, size, "output not a JWK: %s" % str(e)[:80])
+        if kind == "oct":
+            try:
+                kk = base64.urlsafe_b64decode(jw["k"] + "=" * (-len(jw["k"]) % 4))
+            except Exception:
+                kk = None
+            if jw.get("kty") != "oct" or kk != open(path, "rb").read():
+                return ("problem", kind, size, "kty %r, k has %s bytes, the file has %d" % (jw.get("kty"), len(kk) if kk is not None else None, size))
+            return ("ok", kind, size, None)
+        jpath = os.path.join(wd, "j.json"); json.dump(d, open(jpath, "w"))
+        q = subprocess.run([helper, "--mode", "import", "--arg1", jpath, "--arg2", src], capture_output=True, env=env)
+        imp = [json.loads(l) for l in q.stdout.decode().splitlines() if l.startswith('["IMP"')]
+        if not imp or imp[0][2] or not imp[0][4] or imp[0][5] != 1:
+            return ("problem", kind, size, "JWK (kty %r) does not denote the key of the PEM block: %s" % (jw.get("kty"), str(imp)[:120]))
+        return ("ok", kind, size, None)
+
+    bjobs = [("oct", None, n) for n in (8190, 8191, 8192, 8193, 9000, 20000)]
+    for k in keys:
+        if k[1] in ("rsa_2048", "ec_P-256_0", "okp_Ed25519", "ec_P-256") or (thorough and not k[1].startswith("oct")):
+            for n in ((9000, 70000) if thorough else (9000,)):
+                pth = os.path.join(kd, k[1] + ".pem")
+                if os.path.exists(pth):
+                    bjobs.append(("pem", pth, n))
+    with ThreadPoolExecutor(vf.NCPU) as ex:
+        for st, kind, size, detail in ex.map(bigfile, bjobs):
+            rep.evaluations += 1
+            rep.count("big_key_files." + st)
+            rep.distinct.add(("bigfile", kind, size, st))
+            if st == "problem":
+                rep.violation("key2jwk-big-file:%s:%s" % (kind, "over-8192" if size > 8192 else "up-to-8192"),
+                              "key file of %d bytes (%s): %s" % (size, kind, detail), dict(kind=kind, size=size, detail=detail))
     # several keys in one key2jwk call -> one JWKS -> jwk2key: as many files as keys, each the identical key of exactly one source
     def multi(round_):
         r = random.Random(seed * 7919 + round_)
